@@ -354,7 +354,17 @@ pub fn check_reply(cx: &Ctx<'_>, req: &Req, out: &Outcome) -> Vec<Finding> {
     check_ranges(ti, cx.uri, cx.parser_uri, req.kind(), out, &mut f);
     let Some(fe) = ti.fe.as_ref() else { return f };
     let cst = fe.cst;
-    let off = req.pos().and_then(|(l, c)| ti.lines.offset(ti.text, l, c));
+    // Positions past the end of a line default back to the end of that line (LSP specification). The zone
+    // between the line end and the end of its terminator is left unjudged: codespan (and with it lelwel)
+    // counts the terminator as part of the line there.
+    let off = req.pos().and_then(|(l, c)| {
+        ti.lines.offset(ti.text, l, c).or_else(|| {
+            let (_, e) = *ti.lines.spans.get(l as usize)?;
+            let next = ti.lines.spans.get(l as usize + 1).map_or(ti.text.len(), |x| x.0);
+            let len16 = ti.lines.len16(ti.text, l);
+            (c > len16 + (next - e) as u32).then_some(e)
+        })
+    });
     let at = |l: u32, c: u32| format!("{l}:{c}");
     match (req, reply) {
         (Req::Formatting, Reply::Formatting(edits)) => {
